@@ -1,4 +1,4 @@
-From KV Require Import Base.Prelude Model.Search Spec.Search Proofs.SearchProofs
+From KV Require Import Base.Prelude Model.Utf8 Model.Search Spec.Search Proofs.SearchProofs
   Model.Trim Spec.Trim Proofs.TrimProofs Model.Split Spec.Split Proofs.SplitProofs Model.Parser.
 Local Open Scope Z_scope.
 
